@@ -29,6 +29,7 @@ fn invariant(hot_eligible: bool, cold: &MockBe, hot: &MockBe) -> bool {
 //@ kernel: HotColdBackend::{write_bytes, remove}
 //@ bound: one write_bytes or remove with symbolic (file type != config, cacheable, content tag); pre-state of the tracked file in both stores arbitrary subject to invariant I; each of the (up to two) inner store operations may fail without effect or take effect and then report failure (crash right after it); one tracked key (operations on other keys do not interact: both stores are keyed maps)
 //@ oracle: invariant I (cold-present => hot-present with identical content for key/snapshot/index/tree-pack files; data packs never in hot) holds after the step for every fault combination = at every crash point of every history (I is inductive); Ok => the cold store reflects the operation; inner calls carry the caller's (type,id,cacheable)
+//@ assume: content addressing: a file already stored under an id has the same bytes as a new write under that id (ids are SHA-256 of the content for every file type except config)
 //@ outside: config files (save_config / save_config_hot write them separately), equality of results with a single-store run, warm-up ordering inside threaded commands
 #[kani::proof]
 #[kani::unwind(6)]
@@ -52,6 +53,10 @@ pub(crate) fn c16_hotcold_step_with_faults() {
     if is_write {
         let payload: &'static mut [u8; 2] = Box::leak(Box::new(kani::any()));
         let tag = payload[0];
+        // content addressing: a file id is the hash of its content, so a file already present under this id
+        // has the content being written (config, the one exception, is excluded above)
+        kani::assume(!cold_p || cold_t == tag);
+        kani::assume(!hot_p || hot_t == tag);
         let r = be.write_bytes(tpe, &id, cacheable, Bytes::from_static(&*payload).into());
         if r.is_ok() {
             assert!(cold.present.load(SeqCst) && cold.tag.load(SeqCst) == tag);
